@@ -465,6 +465,40 @@ def handler3 (fn : String) : Option Handler :=
         | none => "skip bad-args" }
   | _ => none
 
+/-- a compound part: isometry + shape (`0 r` ball, `1 hx hy` cuboid, `2 n pts…` convex polygon) -/
+inductive Part2 where
+  | ball (r : Float)
+  | cuboid (he : V2 Float)
+  | poly (vs : List (V2 Float))
+def ppart2 : P (Iso2 Float × Part2) := do
+  let m ← piso2
+  let k ← pnat
+  match k with
+  | 0 => do let r ← pf; pure (m, Part2.ball r)
+  | 1 => do let he ← pv2; pure (m, Part2.cuboid he)
+  | _ => do let vs ← plist pv2; pure (m, Part2.poly vs)
+/-- `Shape::mass_properties(density)` of a part (model side) -/
+def partMP (d : Float) : Part2 → Option (MP2 Float)
+  | .ball r => some (fromBall2 piF d r)
+  | .cuboid he => some (fromCuboid2 d he)
+  | .poly vs => fromConvexPolygon d vs
+/-- exact unit-density moments about the origin of a placed part -/
+def partMom (m : Iso2 Rat) : Part2 → Rat × V2 Rat × Rat
+  | .ball r =>
+      let R := q r; let A := piQ * R * R
+      (A, vscale m.t A, piQ * R * R * R * R / 2 + A * nsq m.t)
+  | .cuboid he =>
+      let H := q2 he
+      let V : List (V2 Rat) := [⟨-H.x, -H.y⟩, ⟨H.x, -H.y⟩, ⟨H.x, H.y⟩, ⟨-H.x, H.y⟩]
+      polyMom (V.map fun p => (⟨m.re * p.x - m.im * p.y + m.t.x, m.im * p.x + m.re * p.y + m.t.y⟩ : V2 Rat))
+  | .poly vs =>
+      let M := polyMom ((vs.map q2).map fun p => (⟨m.re * p.x - m.im * p.y + m.t.x, m.im * p.x + m.re * p.y + m.t.y⟩ : V2 Rat))
+      if M.1 < 0 then (-M.1, vscale M.2.1 (-1), -M.2.2) else M
+def partExtent (_m : Iso2 Rat) : Part2 → Rat
+  | .ball r => 2 * q r
+  | .cuboid he => 2 * (q he.x + q he.y)
+  | .poly vs => extent (vs.map q2)
+
 /-- `true`: the model of the 2-D `from_capsule` follows `fixes/C13-capsule2d-half-disk-centroid.diff` (corrected behaviour,
 defect protocol).  Set to `false` if that patch is not applied to `/repo`: the model is then the pinned code
 (`fromCapsule2Pinned`), the correspondence is bit-exact again and only the oracle reports the defect. -/
@@ -604,6 +638,23 @@ def handler (fn : String) : Option Handler :=
                       + piQ * R * R * R * R / 2 + piQ * R * R * h * h / 4 + 4 * h * R * R * R / 3
             let L := h + 2 * R
             judgeLamina (q d) (area, vscale c area, jc + area * nsq c) (L + (rabs c.x + rabs c.y) / 1000) out
+        | none => "skip bad-args" }
+  | "from_compound2" => some {
+      model := fun a => run (do let d ← pf; let ps ← plist ppart2
+                                let mps := ps.map fun (m, s) => (partMP d s).map fun mp => (m, mp)
+                                if mps.any Option.isNone then pure "none"
+                                else pure (fmp2 (fromCompound2 (mps.filterMap id)))) a
+      oracle := fun a o => match run (do let d ← pf; let ps ← plist ppart2; pure (d, ps)) a with
+        | some (d, ps) =>
+          if o = ["none"] then "skip polygon-rejected" else
+          withOut pomp2 o fun out =>
+            -- a rotation `(re, im)` is only a unit complex up to rounding: the exact image is scaled by `re²+im²` (1 ± 1e-16)
+            let ms := ps.map fun (m, s) => partMom (qiso2 m) s
+            let tot := sumMom ms
+            -- length scale: the largest part extent plus the spread of the part positions
+            let ext := ps.foldl (fun e (m, s) => rmax e (partExtent (qiso2 m) s)) 0
+            let spread := extent (ps.map fun (m, _) => q2 m.t)
+            judgeLamina (q d) tot (ext + spread) out
         | none => "skip bad-args" }
   | "mp2_new" => some {
       model := fun a => run (do let c ← pv2; let m ← pf; let i ← pf
